@@ -98,28 +98,22 @@ func solve(query string, file string, timeoutS, seed int, thorough bool) *SolveR
 	if strings.Contains(query, "(str.") {
 		return raceSolvers(res, order, timeoutS, seed, file, thorough)
 	}
-	for _, sp := range order {
-		st, out, ms := runSolver(sp, timeoutS, seed, file)
+	// staged: most obligations are decided by the first solver within a second or two; only
+	// when that short attempt is undecided are all three raced for the full timeout
+	if !thorough && timeoutS > 2 {
+		sp := order[0]
+		st, out, ms := runSolver(sp, 2, seed, file)
 		res.Tried = append(res.Tried, fmt.Sprintf("%s:%s:%dms", sp.name, st, ms))
-		if st == "unknown" {
-			if res.Output == "" {
-				res.Output = out
-			}
-			continue
-		}
-		if res.Status == "unknown" {
+		if st != "unknown" {
 			res.Status, res.Solver, res.Millis, res.Output = st, sp.name, ms, out
 			if st == "sat" {
 				res.Model = out
 			}
-			if !thorough {
-				return res
-			}
-		} else if st != res.Status {
-			res.Agree = false
+			return res
 		}
+		res.Output = out
 	}
-	return res
+	return raceSolvers(res, order, timeoutS, seed, file, thorough)
 }
 
 // raceSolvers runs the solvers concurrently (SMT-string goals: which solver decides a
